@@ -98,9 +98,17 @@ func sImp(a, b Term) Term {
 	return "(=> " + a + " " + b + ")"
 }
 
+var numeral = regexp.MustCompile(`^(\d+|\(- \d+\))$`)
+
 func sEq(a, b Term) Term {
 	if a == b {
 		return "true"
+	}
+	if numeral.MatchString(a) && numeral.MatchString(b) {
+		return "false"
+	}
+	if (a == "true" && b == "false") || (a == "false" && b == "true") {
+		return "false"
 	}
 	return "(= " + a + " " + b + ")"
 }
